@@ -122,7 +122,12 @@ def scenario(cfg, with_reference=False):
         from phonopy.structure.atoms import PhonopyAtoms
         o_ = list(cfg["atom_order"])
         cell = PhonopyAtoms(cell=cell.cell, symbols=[cell.symbols[i] for i in o_], scaled_positions=cell.scaled_positions[o_])
-    ph = phonopy.Phonopy(cell, supercell_matrix=cfg["smat"], primitive_matrix=cfg["pmat"], log_level=0,
+    smat_ = np.array(cfg["smat"])
+    if cfg.get("relabel"):
+        # the same crystal described by other lattice vectors (det -1: left-handed, negative PhonopyAtoms.volume)
+        cell, _qmap, smap = gen.relabelled_cell(cell, gen.UNIMODULAR[cfg["relabel"]])
+        smat_ = smap(smat_)
+    ph = phonopy.Phonopy(cell, supercell_matrix=smat_, primitive_matrix=cfg["pmat"], log_level=0,
                          store_dense_svecs=cfg["dense"])
     sv, mu = ph.primitive.get_smallest_vectors()
     R["svecs"], R["multi"] = sv, mu
@@ -420,6 +425,8 @@ def large_smallest_vectors(run, rng, shim_of, need_pairs):
     for n in (int(np.ceil(np.sqrt(need_pairs))) + 1, 40):
         half = np.array([[a, b, c] for a in (0, 0.5) for b in (0, 0.5) for c in (0, 0.5)], dtype=float)
         pos = np.vstack([half, r.uniform(0, 1, size=(n - 8, 3))])
+        if n == 40:
+            lat = lat * np.array([[1.0], [1.0], [-1.0]])      # left-handed lattice vectors for the small call
         out = {}
         for label, variant, t in (("omp-1", "omp", 1), ("omp-4", "omp", 4), ("omp-8", "omp", 8), ("omp-8b", "omp", 8), ("ser", "ser", 1)):
             shim_of(variant)
@@ -709,9 +716,16 @@ def nac_lowsym_probes(run, rng, thorough):
     from phonopy.harmonic.derivative_dynmat import DerivativeOfDynamicalMatrix
     from phonopy.harmonic.dynamical_matrix import DynamicalMatrix
 
-    cell, _ = gen.make_cell("triclinic")
+    cell0, _ = gen.make_cell("triclinic")
+    lh = rng.choice(["wang", "gonze"])
     for method in ("wang", "gonze"):
-        ph = phonopy.Phonopy(cell, supercell_matrix=np.diag(rng.choice([[2, 1, 1], [1, 2, 1], [1, 1, 2]])), primitive_matrix="P", log_level=0)
+        cell, sm_ = cell0, np.diag(rng.choice([[2, 1, 1], [1, 2, 1], [1, 1, 2]]))
+        relab = rng.choice(["swap12", "negate3", "invert", "shear"]) if method == lh else None
+        if relab:
+            cell, _qm, smap = gen.relabelled_cell(cell0, gen.UNIMODULAR[relab])
+            sm_ = smap(sm_)
+        run.count("NAC low-symmetry probe description: %s" % (relab or "original"), section="oracle")
+        ph = phonopy.Phonopy(cell, supercell_matrix=sm_, primitive_matrix="P", log_level=0)
         fc = gen.pair_fc(ph.supercell, 1.45 * nn_distance(ph.primitive))
         ph.force_constants = fc
         n = len(ph.primitive)
@@ -846,12 +860,16 @@ def main(run):
                 while o_ == sorted(o_) or all(abs(o_[k] - o_[k + 1]) == 1 for k in range(7)):
                     rng.shuffle(o_)
                 cfg["atom_order"] = o_
+            if cfg["pmat"] == "auto" and rng.random() < 0.5:
+                cfg["relabel"] = rng.choice(["swap12", "negate3", "invert", "cyclic"])
         if s == 1:
             cfg["compact"], cfg["dense"], cfg["nac"] = True, False, "wang"
             # a primitive cell with symmetry-inequivalent atoms: atom_list = p2s_map then has done atoms with index >= len(atom_list)
             cfg["cell"] = rng.choice(["nacl_prim", "cscl", "zincblende_prim", "triclinic"])
             cfg["pmat"] = "P"
             cfg["smat"] = rng.choice([[[2, 0, 0], [0, 1, 0], [0, 0, 1]], [[1, 0, 0], [0, 2, 0], [0, 0, 2]], [[2, 0, 0], [0, 1, 0], [0, 0, 2]], [[1, 1, 0], [-1, 1, 0], [0, 0, 1]]])
+            # left-handed description in every run (lattice-handedness assumptions in the kernels / glue would show as C != reference)
+            cfg["relabel"] = rng.choice(["swap12", "negate3", "invert"])
         cfgs.append(cfg)
         U.set_threads(4)
         shim_omp.trace = cap
@@ -862,6 +880,7 @@ def main(run):
         run.count("svecs %s" % ("dense" if cfg["dense"] else "sparse"))
         run.count("fc %s" % ("compact" if cfg["compact"] else "full"))
         run.count("nac %s" % cfg["nac"])
+        run.count("description %s" % (cfg.get("relabel") or "original"))
     # ---- kernels with size-dependent behaviour: one supercell beyond every threshold, through the public path
     thresholds = []
     for r in inv:
